@@ -73,7 +73,7 @@ func c04MetricDocs(rng *Rng, tag string) []string {
 		case 2:
 			d = fmt.Sprintf(`{"name":"%s","action":"set","value":%s,"labels":{}}`, name+"_g", c04Num(rng))
 		case 3:
-			d = fmt.Sprintf(`{"name":"%s","action":"observe","value":%s,"buckets":[1,2.5,%s]}`, name+"_h", c04Num(rng), PickOne(rng, []string{"5", "1e1", "null"}))
+			d = fmt.Sprintf(`{"name":"%s","action":"observe","value":%s,"buckets":[1,2.5,%s]}`, name+"_h", c04Num(rng), PickOne(rng, []string{"5", "1e1", "5.0"})) // increasing: a histogram that cannot be created is dropped silently (C16 findings)
 		case 4:
 			d = fmt.Sprintf(`{"group":"grp%d","name":"%s","action":"add","value":1,"labels":{"x":"\u0041\n\"q\""}}`, rng.Intn(2), name+"_gc")
 		case 5:
@@ -81,7 +81,7 @@ func c04MetricDocs(rng *Rng, tag string) []string {
 		case 6:
 			d = fmt.Sprintf(`{"Name":"%s","SET":%s,"unknown":[{"k":[true,false,null,"}"]},-0.5e-3],"labels":null,"group":null}`, name+"_g", c04Num(rng))
 		case 7:
-			d = fmt.Sprintf("{\n  \"name\": \"%s\",\n  \"action\": \"add\",\n  \"value\": %s,\n  \"add\": null\n}", name+"_c", PickOne(rng, []string{"1", "0.5"}))
+			d = fmt.Sprintf("{\n  \"name\": \"%s\",\n  \"action\": \"add\",\n  \"value\": %s,\n  \"add\": null\n}", name+"_c2", PickOne(rng, []string{"1", "0.5"}))
 		default:
 			d = fmt.Sprintf(`{"name":"%s","set":%s,"value":null,"buckets":null}`, name+"_g", c04Num(rng))
 		}
@@ -487,7 +487,7 @@ func c04ParserCorpus(c *Case) {
 	c.Nontrivial = true
 	m := `{"name":"verif_m","set":1}`
 	for _, t := range []string{"", " \n", m, m + "\n" + m, m + m, m + "}", m + "]", m + "\n}\n", m + " ] " + m, "}" + m, "]", "}", m + "}}garbage",
-		m + ",", m + "," + m, "[" + m + "]", m[:len(m)-1], m[:9], m + "\n{", m + " xyz", "null", m + "null", "5", `{"name":5,"set":1}`,
+		m + ",", m + "," + m, "[" + m + "]", m[:len(m)-1], m[:9], m + "\n{", m + " xyz", "null", m + "null", "5", `{"name":5,"set":1}`, `{"name":"verif_m_h","action":"observe","value":1,"buckets":[1,2.5,null]}`,
 		`{"name":"verif_m","set":"1"}`, `{"name":"verif_m","action":"bogus","value":1}`, `{"NAME":"verif_m","Add":1}`, `{}`,
 		`{"name":"verif_m","set":1,"set":null}`, `{"name":"verif_m","set":01}`, `{"name":"verif_m","set":1,}`, `{"name":"verif_m","set":1e}`,
 		"{\"name\":\"verif\tm\",\"set\":1}", `{"name":"verif_\u00e9","set":1}`, `{"name":"verif_\x","set":1}`, `{'name':'verif_m','set':1}`} {
